@@ -99,6 +99,10 @@ def job_bc(kind, seed):
     rc = RoundCtx()
     res = run_bc(fn, box, a, b, rc)
     ks = [k for k, _ in rc.calls]
+    if len(ks) == 0:
+        # the body does not go through round() at all (e.g. a compare-and-select fold): the lattice form cannot be read off, but the brick and
+        # shortest-image clauses are still plain first-order obligations over the piecewise result and are decided by z3 directly
+        return direct_bc(kind, fn, mf, box, res, a, b, (ax, by, cz))
     if len(ks) != 3:
         raise core.Undecided('expected 3 round() calls, saw %d' % len(ks))
     # Q-lattice: result = r_j - r_i - sum_m n_m box_m with integer n_m (the n_m are read off as the coefficients of the integer symbols)
@@ -152,6 +156,26 @@ def job_bc(kind, seed):
         m = z3.Int('m_img')
         for i in range(3):
             e, L = rvc.to_z3(sp.expand(res.g(i).v)), rvc.to_z3([ax, by, cz][i])
+            obs.append(rvc.logic('C02.orthorhombic/shortest.%s' % CO[i], F, 'for every integer m: |result.%s + m L| >= |result.%s| (shortest of all images)' % (CO[i], CO[i]),
+                                 (e + z3.ToReal(m) * L) * (e + z3.ToReal(m) * L) >= e * e, timeout_ms=60000))
+    for o in obs:
+        o['functions'] = [mf]
+    replay_bc(kind, obs)
+    return obs
+
+
+def direct_bc(kind, fn, mf, box, res, a, b, diag):
+    F = mf['name']
+    obs = [Ob('C02.%s/lattice.form' % kind, F, 'result - (r_j - r_i) is an integer combination of box vectors', 'RVC', 'none', core.UNDECIDED, 0,
+              'the body makes no round() call; the integer multipliers are not syntactically available')]
+    for i in range(3):
+        e = rvc.to_z3(res.g(i).v)
+        h = rvc.to_z3(diag[i] / 2)
+        obs.append(rvc.logic('C02.%s/brick.%s' % (kind, CO[i]), F, '|result.%s| <= half the diagonal box element (inside the minimum-image brick)' % CO[i], z3.And(e <= h, e >= -h)))
+    if kind == 'orthorhombic':
+        m = z3.Int('m_img')
+        for i in range(3):
+            e, L = rvc.to_z3(res.g(i).v), rvc.to_z3(diag[i])
             obs.append(rvc.logic('C02.orthorhombic/shortest.%s' % CO[i], F, 'for every integer m: |result.%s + m L| >= |result.%s| (shortest of all images)' % (CO[i], CO[i]),
                                  (e + z3.ToReal(m) * L) * (e + z3.ToReal(m) * L) >= e * e, timeout_ms=60000))
     for o in obs:
